@@ -18,7 +18,6 @@ NOT_APPLICABLE = {
  "C10": "not claimed: detection of truncation and corruption rests on CRC32/ISIZE checks inside compress/gzip (external) and on the BGZF reader's goroutines; the framing functions (readMember, expectedMemberSize, newBuffer) were not put under contract.",
  "C12": "inter-goroutine delivery order and WaitGroup durability: outside sequential per-function contracts (DESIGN.md section 6)",
  "C13": "not claimed: ChunkReader.Read and the chunk-limited bam.Reader depend on the position bookkeeping of bgzf.Reader (C02), which is not under contract; the clamp arithmetic alone was not built into a check.",
- "C18": "not claimed: the merge order and loss-freedom are whole-run properties over container/heap and several readers; the per-function pieces (reassignReference, comparators, nextBySortOrder error handling) were inspected (DESIGN.md section 5 lists the suspected defects) but not put under contract.",
 }
 
 PENDING = "not claimed yet: contracts for this property are not discharged on the unchanged tree at this commit (work in progress, see DESIGN.md section 7)"
